@@ -21,7 +21,8 @@ impl EndpointHandler<Log> for H {
 
 const METHODS: [Method; 3] = [Method::Get, Method::Put, Method::Patch];
 const PATHS: [&str; 6] = ["", "/", "/a", "/a/b", "/a:b", "/ab"];
-const PREFIXES: [&str; 3] = ["", "/p", "/q/"];
+// (the second prefix is itself a prefix of several registered paths)
+const PREFIXES: [&str; 3] = ["", "/a", "/q/"];
 
 fn mname(m: Method) -> &'static str {
     match m {
